@@ -1,9 +1,11 @@
 """C01 - inbound framing is independent of stream segmentation and (1.1) chunking.
 Code: ncclient/transport/parser.py DefaultXMLParser.parse/_parse10/_parse11, session.py Session.run, the three
 _transport_read primitives.  Model: coq/Model/Framing10.v, Framing11.v, Utf8.v; reference automata and encoders:
-coq/Spec/RefFraming.v; theorems: coq/Props/C01.v; runner protocol: coq/Glue/FramingGlue.v.
-Harness: tools/harness/framing.py (ParserRig, oracle10/oracle11, generators, SessionRig); tools/harness/c01_peers.py (scripted
-servers behind the real TLS / SSH / Unix transports, recording session subclasses)."""
+coq/Spec/RefFraming.v; the Junos use_filter driver coq/Model/JunosParse.v (+ JunosSax.v) with coq/Proofs/HandoverProofs.v;
+theorems: coq/Props/C01.v; runner protocol: coq/Glue/FramingGlue.v, coq/Glue/C01_glue.v (function 20).
+Harness: tools/harness/framing.py (ParserRig, oracle10/oracle11, generators, SessionRig); tools/harness/c01_dispatch.py (real
+session object without transport, default and Junos use_filter profiles, XML document generator); tools/harness/c01_peers.py
+(scripted servers behind the real TLS / SSH / Unix transports, recording session subclasses)."""
 import os, json, glob, itertools
 
 ID = 'C01'
@@ -19,7 +21,28 @@ RULE = ('Parser level: (message list, chunking (1.1), segmentation) triples, bot
         'position / pending chunk octets), on the reference automaton (streams <= 3000 octets), and judged by the property '
         'oracle: delivered == sent (1.0: stripped), once, in order, each during the segment that carries the last octet of '
         'its terminator (not earlier, not later), no exception. Session level: the real UnixSocketSession worker thread over a '
-        'socketpair, oracle only. Peer level (all three transports; quick 16+16+8 connections, thorough 300+300+80): a scripted server '
+        'socketpair, oracle only (messages incl. replies whose root start tag - a hundred xmlns:* attributes, long non-ASCII attribute '
+        'values - or whose prolog - XML declaration, a long comment, white space - ends beyond 4096 / 8192 / 16384 / 32768 characters). '
+        'Dispatch level (harness/c01_dispatch.py; quick ~3 300 runs, thorough ~60 000): the message path transport read -> Session.run -> '
+        'session.parser.parse -> _dispatch_message (parse_root) -> listeners of a REAL, never connected SSHSession whose parser was '
+        'installed as SSHSession.connect does (device_handler.get_xml_parser), the real run loop executed synchronously on prepared '
+        'reads; profiles: default and Junos with use_filter=True (streaming JunosXMLParser: every message that is not a reply to a '
+        'request with filter takes the SAX -> DOM hand-over, the octets after its terminator go to a new streaming parser) x both '
+        'framings. Messages are well-formed XML documents: notifications, replies to outstanding requests without filter (Get, '
+        'GetConfig, ExecuteRpc, Command; with and without nc: prefix), other roots (default profile only), with XML declaration / '
+        'comments / processing instruction / white space before the root, comment / white space after it, white space between the '
+        'terminator and the next message, 2/3/4-byte characters in text, attribute values and comments; the END of the root start '
+        'tag is placed at chosen character offsets: small, exactly / +-1 / +-2 / around 4096, 8192, 16384, 32768, 65536 and far '
+        'beyond (by xmlns:* declarations, one long attribute, both, a long comment, or white space before the root). Segmentations: '
+        'ALL single cuts + all size-1 reads of short streams (thorough: also double cuts), whole, fixed 4096, random, adversarial, '
+        'size 1, around the end of every root start tag and every multiple of 4096. Oracle: the registered listener gets exactly the '
+        'sent texts (1.0: stripped), once, in order, each during the read carrying the last octet of its terminator; the (tag, '
+        'attributes) handed over with it equal the root an independent reader (xml.etree/expat) finds in the sent text; every request '
+        'holds exactly its reply text; the notification queue holds the notifications; no errback. The Junos 1.0 runs of streams '
+        '<= 3000 octets are also compared read by read (parser kind, held-back octets, head, buffer, messages dispatched, octets given '
+        'to expat) with the extracted driver model JunosParse.run (runner function 20 = the C18 driver; theorems C01_handover_*). '
+        'Peer level (all three transports; quick 20+26+12 connections, thorough 300+400+80; on SSH also connections opened with '
+        'device_params {name: junos, use_filter: True}: notifications back to back, pieces ending just after a terminator): a scripted server '
         'behind the REAL transport - TLSSession.connect to an ssl server on 127.0.0.1 (own CA), SSHSession.connect(sock=) to an '
         'in-process paramiko server over a socketpair, UnixSocketSession over a socketpair - real hello exchange (server hello '
         'advertising base:1.1 for 1.1 cases), then the stream of 1-5 XML messages (tiny, ASCII, 2/3/4-byte characters, white space '
@@ -44,11 +67,21 @@ ASSUMES = ['CPython bytes.find/partition/strip, str.strip, bytes.decode("utf-8")
            'the theorems hold for every segment size',
            'which read boundaries TLS/SSH produce cannot be forced from outside: the peer level records the boundaries that occurred '
            '(evidence: peer_read_octets_*), the theorems and the parser level cover all of them',
-           'listeners are reached through Session._dispatch_message (C14/C03 cover what it does with the text)']
+           'listeners are reached through Session._dispatch_message: that every correctly framed well-formed message reaches them is checked '
+           'by the session, dispatch and peer levels (root start tags / prologs of any length); what it does with a malformed text is C14/C03',
+           'Junos use_filter sessions: expat and the SAX handler of one reply are an arbitrary machine in the C01_handover theorems (hypotheses: '
+           'its root, once set, stays set; a new parser has none; the message signals the switch before root and output; dispatch reinstalls '
+           'the streaming parser) - the instance run against the code is Model/JunosSax.v with real expat as the oracle of SAX events per octet; '
+           'replies to requests WITH a filter are C18 (the listener gets the projection, not the text)',
+           'after the <hello> a server sends well-formed <rpc-reply> and <notification> documents; a Junos session (perform_qualify_check False) '
+           'treats any other document element as a reply']
 TRUSTED = ['modelled, not verified: CPython bytes/str/re built-ins used by parser.py',
            'tools/harness/framing.py: ParserRig stands in for Session (same attributes the parser touches: _buffer, _message_list, _base, parser, _dispatch_message)',
            'tools/harness/c01_peers.py (scripted TLS/SSH/Unix servers, recording subclasses wrapping _transport_read/_dispatch_message/_transport_write), '
            'tools/harness/c12_peers.py (openssl-CLI certificates, paramiko host key); OpenSSL, paramiko 5.0.0 and the loopback stack are the peers, not verified',
+           'tools/harness/c01_dispatch.py: SSHSession subclass handing prepared reads out of _transport_read (always-readable pipe in the real selector, '
+           'real Session.run in the calling thread), deterministic message-ids (uuid4 of ncclient.operations.rpc rebound while requests are issued), '
+           'xml.etree/expat as the independent reader of roots; harness/saxseg.py (world_for, compare) and props/c18.py (env_val, events_val) for the driver model',
            'peer-level timing: "not delivered before the terminator" is asserted after the client has read every written octet plus 30 ms; '
            'stall = a written octet unread after 2 s; deliveries awaited up to 5 s']
 ALLOWED_AXIOMS = []
@@ -367,10 +400,21 @@ def burst_case(base, n=2500):
     return {'level': 'session', 'base': base, 'segs': [stream.hex()], 'settle': True, 'expected': msgs}, 'burst'
 
 
+MAX_FAILURES = 6
+def enough_failures(ctx, level):
+    """wall-clock levels wait seconds for every message that never arrives: once the property is shown false on several
+    cases the remaining ones of the level are not run (the first failure is the one reported)"""
+    if len([x for x in ctx.failures if x.get('sig') is None]) >= MAX_FAILURES:
+        ctx.note('%s: stopped early, %d failing cases already recorded' % (level, len(ctx.failures)))
+        return True
+    return False
+
+
 def session_level(ctx):
     rng = ctx.rng
     n = 100 if ctx.tier == 'quick' else 600
     for i in range(n + 2):
+        if enough_failures(ctx, 'session level'): break
         case, sk = session_case(rng, 10 if i % 2 == 0 else 11) if i < n else burst_case(10 if i % 2 == 0 else 11)
         ok, what, actual = session_judge(case)
         tries = 1
@@ -384,6 +428,136 @@ def session_level(ctx):
         else:
             ctx.fail(case, 'session level (UnixSocketSession over socketpair), base 1.%d: %s' % (case['base'] - 10, what), sig=None,
                      expected={'callbacks': case['expected'], 'errors_before_close': [], 'worker_alive_after_close': False}, actual=actual)
+
+
+# ---------------------------------------------------------------- 4b. dispatch level (real session object, no transport)
+def D():
+    from harness import c01_dispatch
+    return c01_dispatch
+
+
+def dispatch_witnesses():
+    """fixed cases run first: (a) back-to-back messages on a Junos use_filter session, the octets after a terminator are the
+    beginning of the next message (two reads, every kind of cut is covered by the generated cases); (b) a reply whose root
+    start tag ends beyond character 4096 (RFC 6241 4.2: the attributes of the <rpc> are echoed) between two small ones."""
+    d, out = D(), []
+    import random
+    rng = random.Random(20240501)
+    for profile in d.PROFILES:
+        for base in (10, 11):
+            a = d.make_doc(rng, base, 'note', 0, body_len=12)
+            b = d.make_doc(rng, base, 'reply', 0, prolog='decl+nl', start_end=4300, how='xmlns', epilog='\n')
+            c = d.make_doc(rng, base, 'note', 2, prolog='comment', start_end=5000, how='prolog_comment')
+            e = d.make_doc(rng, base, 'reply', 1, body_len=5)
+            msgs, kinds = [a, b, c, e], ['note', 'reply', 'note', 'reply']
+            stream, ends, expected, cks = d.encode(rng, base, msgs, 'uniform')
+            for sk, cuts in (('whole', []), ('uniform613', list(range(613, len(stream), 613))), ('after_term', [x + 9 for x in ends[:-1]])):
+                out.append((profile, base, msgs, kinds, 2, stream, expected, [(sk, cuts)], dict(size='witness', start_end='witness')))
+    return out
+
+
+def dispatch_level(ctx):
+    """C01's message / chunking / segmentation families through the message path of a real session object (see
+    harness/c01_dispatch.py), for the default profile and for a Junos use_filter session (streaming parser, SAX -> DOM
+    hand-over), both framings; the Junos 1.0 runs of short streams also against the extracted driver model read by read."""
+    import time
+    d, f, rng, quick = D(), F(), ctx.rng, ctx.tier == 'quick'
+    t_start = time.time()
+    jobs = dispatch_witnesses()
+    combos = [('junos_sax', 10), ('default', 10), ('default', 11), ('junos_sax', 11)]
+    # ALL single cuts (and all size-1 reads) of short streams
+    n_all = {('junos_sax', 10): 5 if quick else 60, ('default', 10): 2 if quick else 20, ('default', 11): 2 if quick else 20,
+             ('junos_sax', 11): 1 if quick else 10}
+    for (profile, base), n in n_all.items():
+        for i in range(n):
+            while True:
+                msgs, kinds, nreq, tags = d.gen_docs(rng, base, profile, 'tiny')
+                stream, ends, expected, cks = d.encode(rng, base, msgs, rng.choice(['single', 'random', 'adversarial']) if base == 11 else None)
+                if len(stream) <= (420 if quick else 600): break
+            cs = [('single_all', c) for c in f.all_single_cuts(len(stream))] + [('size1', list(range(1, len(stream)))), ('whole', [])]
+            if not quick and i % 4 == 0:                 # double cuts: all of them up to ~2000 per stream, else every k-th
+                dc = f.all_double_cuts(len(stream))
+                cs += [('double', c) for c in dc[::max(1, len(dc) // 2000)]]
+            jobs.append((profile, base, msgs, kinds, nreq, stream, expected, cs, tags))
+    # structured sweep: every segmentation kind of each (messages, chunking); the end of a root start tag at and beyond
+    # the sizes a reader might cut a document at
+    n_jobs = 100 if quick else 1400
+    for i in range(n_jobs):
+        profile, base = combos[i % 4]
+        size = ['small', 'edge', 'small', 'far', 'edge'][i % 5]
+        msgs, kinds, nreq, tags = d.gen_docs(rng, base, profile, size)
+        stream, ends, expected, cks = d.encode(rng, base, msgs)
+        cs, seen = [], set()
+        for sk in ('whole', 'fixed4096', 'random', 'adversarial_some', 'size1', 'special') + (('adversarial_all',) if len(stream) < 3000 else ()):
+            cuts = d.special_cuts(rng, base, stream, msgs, ends) if sk == 'special' else f.gen_cuts(rng, base, stream, sk)
+            if sk == 'special' and len(cuts) > 12: cuts = sorted(rng.sample(cuts, 12))
+            if tuple(cuts) in seen: continue
+            seen.add(tuple(cuts)); cs.append((sk, cuts))
+        jobs.append((profile, base, msgs, kinds, nreq, stream, expected, cs, dict(tags, chunkings=cks)))
+    S = c18 = None
+    if ctx.model:
+        from harness import saxseg as S
+        from props import c18
+    n_model = n_runs = 0
+    for profile, base, msgs, kinds, nreq, stream, expected, cs, tags in jobs:
+        tie = ctx.model is not None and profile == 'junos_sax' and base == 10 and len(stream) <= REF_MAX
+        mres = None
+        if tie:
+            world = S.world_for(stream, [d.msg_id(k) for k in range(nreq)], [None] * nreq, c18.env_val, c18.events_val)
+            mres = ctx.model.call([20, world, stream, [S.lens_of(stream, c) for _, c in cs]])
+        se = max((d.start_tag_end(m) or 0) for m in msgs)
+        for k, (sk, cuts) in enumerate(cs):
+            segs = f.segment(stream, cuts)
+            obs = d.run_case(profile, base, segs, nreq, observe=tie)
+            case = {'level': 'dispatch', 'profile': profile, 'base': base, 'segs': [x.hex() for x in segs], 'n_requests': nreq,
+                    'expected': expected, 'kinds': kinds}
+            n_runs += 1
+            ctx.count(case, nontrivial=True, key=[profile, base, case['segs'], kinds])
+            ctx.hist('level', 'dispatch_' + profile); ctx.hist('dispatch_base', '%s/1.%d' % (profile, base - 10))
+            ctx.hist('dispatch_segmentation', sk); ctx.hist('dispatch_n_messages', len(msgs)); ctx.hist('dispatch_size_class', tags['size'])
+            for kd in kinds: ctx.hist('dispatch_message_kind', kd)
+            for ck in tags.get('chunkings', []): ctx.hist('dispatch_chunking', ck)
+            ctx.hist('dispatch_root_start_tag_ends_at_char', '<256' if se < 256 else '<4096' if se < 4096 else '4096' if se == 4096 else
+                     '<8192' if se < 8192 else '<16384' if se < 16384 else '<32768' if se < 32768 else '<65536' if se < 65536 else '>=65536')
+            ctx.hist('dispatch_stream_octets', '<512' if len(stream) < 512 else '<4096' if len(stream) < 4096 else '<16384' if len(stream) < 16384 else '>=16384')
+            ok, what, exp, act = d.judge(base, segs, expected, kinds, obs)
+            if ok:
+                ctx.traces += 1
+            else:
+                ctx.fail(case, 'dispatch level (%s session, parser installed as SSHSession.connect does, real Session.run and _dispatch_message), '
+                         'base 1.%d, %d read(s): %s' % ('Junos use_filter' if profile == 'junos_sax' else 'default-profile', base - 10, len(segs), what),
+                         sig=None, expected=_short(exp), actual=_short(act))
+            if mres is not None:
+                n_model += 1
+                ctx.hist('level', 'dispatch_junos_model')
+                badm = S.compare(mres[k], obs['log'])
+                ctx.hist('dispatch_junos_model', 'outside the model (expat rejects)' if any(r[0] == 3 for r in mres[k][0]) else 'compared')
+                if badm:
+                    ctx.disagree(case, repr(badm[1])[:600], repr(badm[2])[:600], 'JunosParse.run (extracted, instance JunosSax) vs the Junos use_filter '
+                                 'session read by read: ' + badm[0], theorem='C01_handover_delivery / C01_handover_next')
+    ctx.extra['dispatch_cases'] = n_runs
+    ctx.extra['dispatch_cases_against_driver_model'] = n_model
+    ctx.extra['dispatch_wall_s'] = round(time.time() - t_start, 1)
+
+
+def _short(d):
+    def sh(x):
+        if isinstance(x, (bytes, str)) and len(x) > 160: return x[:100] + type(x)(b'...' if isinstance(x, bytes) else '...') + x[-40:] + (b' (%d)' % len(x) if isinstance(x, bytes) else ' (%d)' % len(x))
+        if isinstance(x, (list, tuple)): return [sh(y) for y in x]
+        if isinstance(x, dict): return {k: sh(v) for k, v in x.items()}
+        return x
+    return sh(d)
+
+
+def dispatch_replay(c):
+    ok, what, exp, act, obs = D().execute(c)
+    n = sum(len(h) for h in c['segs']) // 2
+    print('case     : dispatch level, %s profile, base 1.%d, %d octets in %d read(s), %d outstanding request(s), messages %s' % (
+        c['profile'], c['base'] - 10, n, len(c['segs']), c.get('n_requests', 0), c['kinds']))
+    print('expected :', _short(exp))
+    print('actual   :', _short(act))
+    if not ok: print('FAILS    :', what)
+    return ok
 
 
 # ---------------------------------------------------------------- 5. real TLS / SSH / Unix peers
@@ -400,7 +574,17 @@ PEER_WITNESSES = [       # fixed cases run first on every transport: F24 (a piec
     dict(base=11, msgs=['\n<rpc-reply message-id="1"><ok/></rpc-reply> \n', ' <b>y\u00a0</b>\n\n'], chunks=[[b'\n', b'<rpc-reply message-id="1"><ok/></rpc-reply>', b' \n'], None],
          cut='holds', actions=None),
     dict(base=10, msgs=['\n<rpc-reply message-id="1"><ok/></rpc-reply> \n', ' <b>y\u00a0</b>\n\n'], chunks=None, cut='holds', actions=None),
+    # a reply that echoes a hundred xmlns:* attributes of its <rpc> (RFC 6241 4.2): the root's start tag ends beyond character
+    # 4096 (beyond octet 4096 + 220); a long comment before the root of a notification; small messages around them
+    dict(base=10, msgs=['<ok/>', '<rpc-reply message-id="2" %s><data><p005:v>ok-\u00e4</p005:v></data></rpc-reply>' % ' '.join(
+             'xmlns:p%03d="urn:example:module:%03d" a%03d="\u00f6\u2603"' % (i, i, i) for i in range(110)), '<r>3</r>',
+             '<?xml version="1.0" encoding="UTF-8"?>\n<!--%s-->\n<notification xmlns="urn:ietf:params:xml:ns:netconf:notification:1.0"><eventTime>2024-01-01T00:00:00Z</eventTime></notification>' % ('\u00e9 c ' * 2100),
+             '<a>\u00e9</a>'], chunks=None, cut='holds', actions=None),
+    dict(base=11, msgs=['<ok/>', '<rpc-reply message-id="2" %s><data><p005:v>ok-\u00e4</p005:v></data></rpc-reply>' % ' '.join(
+             'xmlns:p%03d="urn:example:module:%03d" a%03d="\u00f6\u2603"' % (i, i, i) for i in range(110)), '<r>3</r>'],
+         chunks=[None, None, None], cut='whole', actions='s'),
 ]
+JUNOS_SAX = {'name': 'junos', 'use_filter': True}
 
 def peer_witness_case(w, kind):
     f = F()
@@ -413,11 +597,39 @@ def peer_witness_case(w, kind):
         stream, ends = f.encode10(mb), f.ends10(mb)
     if w['cut'] == 'whole':
         pieces, actions = [stream], w['actions']
+    elif w['cut'] == 'after':
+        pieces = f.segment(stream, sorted(set([e - 1 for e in ends] + [e + 9 for e in ends[:-1]])))
+        actions = ''.join('h' if i % 2 == 0 else 's' for i in range(len(pieces)))
     else:
         pieces = f.segment(stream, sorted(set([e - 1 for e in ends] + [e for e in ends[:-1]])))
         actions = ''.join('h' if i % 2 == 0 else 's' for i in range(len(pieces)))
-    return {'level': 'peer', 'transport': kind, 'base': base, 'pieces': [p.hex() for p in pieces], 'actions': actions, 'pause_ms': 1,
+    case = {'level': 'peer', 'transport': kind, 'base': base, 'pieces': [p.hex() for p in pieces], 'actions': actions, 'pause_ms': 1,
             'expected': [m.strip() if base == 10 else m for m in w['msgs']], 'n_expected': len(mb)}
+    if w.get('device_params'): case['device_params'] = dict(w['device_params'])
+    return case
+
+
+def junos_peer_msg(rng, base, i, size, big):
+    """messages of a Junos use_filter connection: notifications (no request is outstanding: each takes the SAX -> DOM
+    hand-over), prolog / root start tag / body of any length"""
+    d = D()
+    se = None
+    if big and size == 'multi': se = rng.choice([4097, 4300, 8193, 9000, 16500])
+    elif size != 'tiny' and rng.random() < 0.3: se = rng.randint(150, 3000)
+    return d.make_doc(rng, base, 'note', i, prolog=rng.choice(['', '', 'decl', 'decl+nl', 'ws', 'pi']), start_end=se,
+                      how=rng.choice(['xmlns', 'attr', 'mixed', 'prolog_ws']), epilog=rng.choice(['', '\n', ' \n']),
+                      body_len=rng.choice([0, 3, 30, 30, 400]) if not (big and size == 'multi' and se is None) else rng.randint(4200, 12000),
+                      lead=rng.choice(['', '', '\n']))
+
+
+def junos_peer_witness(base):
+    """three notifications back to back, written so that every transport read that carries a terminator also carries the
+    beginning of the next message (pieces end 9 octets after each terminator and one octet before it)"""
+    d = D()
+    import random
+    rng = random.Random(7)
+    msgs = [d.make_doc(rng, base, 'note', i, body_len=20, prolog=['', 'decl+nl', 'ws'][i]) for i in range(3)]
+    return dict(base=base, msgs=msgs, chunks=[None] * 3, cut='after', actions=None, device_params=JUNOS_SAX)
 
 
 def peer_exec(case, tries=3):
@@ -446,13 +658,21 @@ def peers_level(ctx):
     for kind in kinds:
         for w in PEER_WITNESSES:
             plan.append((peer_witness_case(w, kind), dict(size='witness', piece_kind=w['cut'], mode='witness', holds=0)))
+    # the vendor parser is installed by SSHSession.connect only: a Junos use_filter connection (streaming parser, hand-over)
+    for base in (10, 11):
+        plan.append((peer_witness_case(junos_peer_witness(base), 'ssh'), dict(size='witness', piece_kind='after', mode='witness', holds=0, profile='junos_sax')))
     per = {'tls': 14, 'ssh': 14, 'unix': 6} if quick else {'tls': 300, 'ssh': 300, 'unix': 80}
     for kind in kinds:
         for i in range(per[kind]):
             size = ['tiny', 'small', 'multi', 'small', 'multi', None][i % 6]
             plan.append(q.gen_inbound_case(rng, kind, 10 if i % 2 == 0 else 11, size))
+    for i in range(4 if quick else 100):
+        case, tags = q.gen_inbound_case(rng, 'ssh', 10 if i % 4 != 3 else 11, ['small', 'multi', 'tiny', 'small'][i % 4], msg_gen=junos_peer_msg)
+        case['device_params'] = dict(JUNOS_SAX)
+        plan.append((case, dict(tags, profile='junos_sax')))
     done = []
     for case, tags in plan:
+        if enough_failures(ctx, 'peer level'): break
         ok, what, exp, act, obs, flaky = peer_exec(case)
         kind, base = case['transport'], case['base']
         if flaky:
@@ -466,12 +686,16 @@ def peers_level(ctx):
         ctx.hist('peer_reads_per_case', len(obs['reads']) if len(obs['reads']) < 4 else ('4-9' if len(obs['reads']) < 10 else ('10-99' if len(obs['reads']) < 100 else '100+')))
         n = sum(len(p) for p in case['pieces']) // 2
         ctx.hist('peer_stream_octets', '<64' if n < 64 else ('<512' if n < 512 else ('<4096' if n < 4096 else '>=4096')))
+        ctx.hist('peer_profile', tags.get('profile', 'default'))
         if ok:
             ctx.traces += 1
-            done.append((case, obs))
+            if not case.get('device_params'):       # Framing10/11 model the default parser; the Junos driver is compared at the dispatch level
+                done.append((case, obs))
         else:
-            ctx.fail(case, 'peer level (%s session against a scripted server behind the real transport), base 1.%d: %s' % (
-                     {'tls': 'TLSSession', 'ssh': 'SSHSession', 'unix': 'UnixSocketSession'}[kind], base - 10, what), sig=None, expected=exp, actual=act)
+            ctx.fail(case, 'peer level (%s session%s against a scripted server behind the real transport), base 1.%d: %s' % (
+                     {'tls': 'TLSSession', 'ssh': 'SSHSession', 'unix': 'UnixSocketSession'}[kind],
+                     ' opened with device_params %r' % (case['device_params'],) if case.get('device_params') else '', base - 10, what),
+                     sig=None, expected=_short(exp), actual=_short(act))
     # the reads the session really made, fed to the extracted model: same deliveries read by read, same parser state
     # (the extracted 1.0 model is cubic in the message length - 0.6 s at 8 kB, 4 s at 16 kB, 26 s at 32 kB: long 1.0 streams are fed
     # to it only up to a budget; every case is still judged by the oracle above)
@@ -506,12 +730,14 @@ def peers_level(ctx):
 
 
 def run(ctx):
+    import time
     ctx.exhaustive = False
-    parser_level(ctx)          # corpus first (inside)
-    constants(ctx)
-    micro(ctx)
-    session_level(ctx)
-    peers_level(ctx)
+    walls = ctx.extra['level_wall_s'] = {}
+    for level in (parser_level,          # corpus first (inside)
+                  constants, micro, session_level, dispatch_level, peers_level):
+        t = time.time()
+        level(ctx)
+        walls[level.__name__] = round(time.time() - t, 1)
     if not ctx.model:
         ctx.note('model runner missing: model comparisons skipped, oracles still ran')
 
@@ -532,6 +758,15 @@ def search(ctx, seeds):
         if not ok:
             return dict(case={'base': base, 'segs': [s.hex() for s in segs]}, what='base 1.%d: %s' % (base - 10, what), sig=None, expected=exp, actual=act)
     for c in seeds:
+        if c.get('level') == 'dispatch':           # the driver tie broke: the property oracle on this stream, as recorded and under all single cuts
+            d = D()
+            stream = b''.join(bytes.fromhex(h) for h in c['segs'])
+            for segs in [[bytes.fromhex(h) for h in c['segs']]] + [f.segment(stream, cu) for cu in f.all_single_cuts(len(stream))][:3000]:
+                cc = dict(c, segs=[x.hex() for x in segs])
+                ok, what, exp, act, obs = d.execute(cc)
+                if not ok:
+                    return dict(case=cc, what='dispatch level (%s, base 1.%d): %s' % (c['profile'], c['base'] - 10, what), sig=None, expected=_short(exp), actual=_short(act))
+            continue
         if 'segs' not in c: continue
         segs = [bytes.fromhex(h) for h in c['segs']]
         stream = b''.join(segs)
@@ -559,6 +794,8 @@ def reproduce(finding):
     from vlib import paths; paths.use_repo()
     if w.get('level') == 'peer':
         return not peer_exec(w)[0]
+    if w.get('level') == 'dispatch':
+        return not D().execute(w)[0]
     ok = F().judge(w['base'], [bytes.fromhex(h) for h in w['segs']])[0]
     return not ok
 
@@ -577,6 +814,9 @@ def replay(doc):
         print('actual   :', short(act))
         if not ok: print('FAILS    :', what)
         return ok
+    if c.get('level') == 'dispatch':
+        from vlib import paths; paths.use_repo()
+        return dispatch_replay(c)
     if c.get('level') == 'session':
         ok, what, actual = session_judge(c)
         print('case     : session level, base 1.%d, %d segments' % (c['base'] - 10, len(c['segs'])))
